@@ -249,9 +249,86 @@ def signature(world: Dict[str, Any], idx: Dict[int, Any], attr: str, ident: str,
     else:
         tags.append('what=' + ident.split(':')[0])
     tags.append(f'cyclic={cyc}')
-    if partial:
+    if partial.startswith('star-from-partial:'):
+        # Known root cause only if the differing name actually flows through a star import that was executed while its
+        # source was half built (the importer then misses the names defined later).  A module that star-imports the
+        # same source *after* it was completely analysed must not be affected.
+        pairs = {tuple(x.split('<-')) for x in partial.split(':', 1)[1].split(';')}
+        flows = False
+        if attr in ('bases', 'mro') and ident.startswith('M') and int(ident[1:]) in idx:
+            modname, scope, st = idx[int(ident[1:])]
+            refs = [st['bases'][j]] if (attr == 'bases' and j is not None and j < len(st.get('bases', []))) else st.get('bases', [])
+            # for an mro difference look at the bases of every ancestor too
+            todo = list(refs)
+            seen_cls = set()
+            mods_refs = [(modname, r) for r in todo]
+            if attr == 'mro':
+                stack = [st['id']]
+                while stack:
+                    c = stack.pop()
+                    if c in seen_cls or c not in idx:
+                        continue
+                    seen_cls.add(c)
+                    cm, _, cst = idx[c]
+                    for r in cst.get('bases', []):
+                        mods_refs.append((cm, r))
+                        if r.get('id') is not None:
+                            stack.append(r['id'])
+            for mn, r in mods_refs:
+                if _flows_through(world, mn, r, pairs):
+                    flows = True
+                    break
+        else:
+            flows = True
+        tags.append('star-from-partial' if flows else 'partial-read-elsewhere')
+    elif partial:
         tags.append(partial)
     return f'{PROPERTY}/{attr}/' + ','.join(tags)
+
+
+def _merge_partial(a: str, b: str) -> str:
+    pre = 'star-from-partial:'
+    if a.startswith(pre) or b.startswith(pre):
+        pairs = set()
+        for x in (a, b):
+            if x.startswith(pre):
+                pairs.update(x[len(pre):].split(';'))
+        return pre + ';'.join(sorted(pairs))
+    return a or b
+
+
+def _flows_through(world: Dict[str, Any], modname: str, ref: Dict[str, Any], pairs: Set[Tuple[str, ...]]) -> bool:
+    """Does the name used by ``ref`` in ``modname`` reach its definition through a star import statement
+    (reader <- source) in ``pairs``?  Follows the recorded origin of each binding."""
+    truth = world['truth']
+    expr = ref.get('expr', '')
+    head = expr.split('.')[0]
+    cur_mod, cur_name = modname, head
+    # attribute of a module binding: continue inside that module with the last component
+    b = truth['ns'].get(cur_mod, {}).get(cur_name)
+    hops = 0
+    while hops < 12:
+        hops += 1
+        if b is not None and b[0] == 'm':
+            # dotted access: the remaining name is looked up in that module
+            rest = expr.split('.')[1:]
+            if not rest:
+                return False
+            cur_mod, cur_name = b[1], rest[0]
+            expr = '.'.join(rest)
+            b = truth['ns'].get(cur_mod, {}).get(cur_name)
+            if b is None and f'{cur_mod}.{cur_name}' in world['modules']:
+                b = ['m', f'{cur_mod}.{cur_name}']      # a sub-module reached as an attribute of its package
+            continue
+        route = truth['routes'].get(f'{cur_mod}:{cur_name}', 'local')
+        org = truth['origin'].get(f'{cur_mod}:{cur_name}')
+        if route == 'star' and org and (cur_mod, org[0]) in pairs:
+            return True
+        if not org or route == 'local':
+            return False
+        cur_mod, cur_name = org[0], org[1]
+        b = truth['ns'].get(cur_mod, {}).get(cur_name)
+    return False
 
 
 def _roots(world: Dict[str, Any]) -> Set[str]:
@@ -264,8 +341,8 @@ def run_world(world: Dict[str, Any], scheds: Sequence[Sequence[str]]) -> Dict[st
     roots = _roots(world)
     idx = index_world(world)
     cyclic = world['truth']['cyclic']
-    star_sources = {st['mod'] for m in world['modules'].values() for _, st in W.iter_stmts(m['body'])
-                    if st['k'] == 'from' and st['names'] == '*'}
+    star_stmts = {(mn, st['mod']) for mn, m in world['modules'].items() for _, st in W.iter_stmts(m['body'])
+                  if st['k'] == 'from' and st['names'] == '*'}
     ref = None
     ref_sched: Optional[Sequence[str]] = None
     violations: Dict[str, Dict[str, Any]] = {}
@@ -281,7 +358,11 @@ def run_world(world: Dict[str, Any], scheds: Sequence[Sequence[str]]) -> Dict[st
         iid = simsystem.interleaving_id(system.sim_log)
         inter.add(iid)
         partial_mods = {e[1] for e in system.sim_log if e[0] == 'partial'}
-        partial = 'star-from-partial' if (partial_mods & star_sources) else ('partial-read' if partial_mods else '')
+        # (source module read while half built, module that was reading it)
+        partial_pairs = {(e[1], e[2]) for e in system.sim_log if e[0] == 'partial'}
+        star_partial_pairs = {(src, rd) for (src, rd) in partial_pairs if (rd, src) in star_stmts}
+        partial = ('star-from-partial:' + ';'.join(sorted(f'{rd}<-{src}' for src, rd in star_partial_pairs))) if star_partial_pairs \
+            else ('partial-read' if partial_mods else '')
         partial_any |= bool(partial_mods)
         # probes
         proc = set()
@@ -312,7 +393,7 @@ def run_world(world: Dict[str, Any], scheds: Sequence[Sequence[str]]) -> Dict[st
             ref, ref_sched, ref_partial = d, sc, partial
             continue
         for attr, ident, a, b in compare(world, ref, d, cyclic):
-            sig = signature(world, idx, attr, ident, a, b, max(partial, ref_partial, key=len))
+            sig = signature(world, idx, attr, ident, a, b, _merge_partial(partial, ref_partial))
             if sig not in violations:
                 violations[sig] = {
                     'signature': sig,
